@@ -5,7 +5,7 @@ From Coq Require Import List Bool Arith ZArith QArith String Ascii Lia Permutati
 Import ListNotations.
 From DA Require Import Base.PyRT Base.Val Model.Sem Model.PdPrim Model.PandasExec Model.PermGuard
   Proofs.SemBasicP Proofs.SemOrderP Proofs.PermP1 Proofs.PermP2 Proofs.PermP3 Proofs.PermP4 Proofs.ComposeP5
-  Proofs.PandasExecP1 Proofs.PandasExecP2 Proofs.PandasExecP3 Proofs.PandasExecP4 Proofs.PandasExecP5 Proofs.PandasExecP6 Proofs.PandasExecP7.
+  Proofs.PandasExecP1 Proofs.PandasExecP2 Proofs.PandasExecP3 Proofs.PandasExecP4 Proofs.PandasExecP5 Proofs.PandasExecP6 Proofs.PandasExecP7 Proofs.PandasExecP9.
 Local Open Scope string_scope.
 Local Open Scope list_scope.
 
@@ -46,16 +46,16 @@ Proof.
   apply andb_true_iff in H. destruct H as [Ha Hb]. split; [apply subset_spec, Ha|]. split; [apply subset_spec, Hb|apply Nat.eqb_eq, Hl].
 Qed.
 
-Lemma join_step_holds : true = true -> forall p a b on_a on_b jt l r x,
+Lemma join_step_holds arr : arranger_ok arr -> true = true -> forall p a b on_a on_b jt l r x,
   p = OJoin a b on_a on_b jt ->
   width_ok l -> width_ok r -> same_set (cols l) (column_names a) -> same_set (cols r) (column_names b) ->
   join_keys_clean (column_names a) (column_names b) on_a on_b = true ->
-  px_join (declared_cols p) on_a on_b jt l r = Some x ->
+  px_join_with arr (declared_cols p) on_a on_b jt l r = Some x ->
   refines x (sem_join false on_a on_b jt l r) /\ width_ok x.
 Proof.
-  intros _ p a b on_a on_b jt l r x -> Wl Wr Sl Sr Jc H.
+  intros Ao _ p a b on_a on_b jt l r x -> Wl Wr Sl Sr Jc H.
   destruct (join_keys_clean_facts _ _ _ _ Jc) as [Ha [Hb Hlen]].
-  apply (px_join_refines (declared_cols (OJoin a b on_a on_b jt)) on_a on_b jt l r x Wl Wr); try assumption.
+  apply (px_join_with_refines arr (declared_cols (OJoin a b on_a on_b jt)) on_a on_b jt l r x Ao Wl Wr); try assumption.
   - intros c I. apply Sl, Ha, I.
   - intros c I. apply Sr, Hb, I.
   - cbn [declared_cols]. eapply same_set_trans; [apply join_declared_set|]. eapply same_set_trans; [|apply same_set_sym, same_set_union_form].
@@ -90,13 +90,13 @@ Proof.
 Qed.
 
 (* ------------------------------------------------------------------ the pipeline theorem, every step kind *)
-Theorem pexec_refines_sem srt q p e t :
-  sorter_ok srt -> wf_op_b p = true -> total_orders fl_pandas p e -> exact_group_keys fl_pandas p e ->
-  pexec_gen srt q p e = Some t ->
+Theorem pexec_refines_sem srt arr q p e t :
+  sorter_ok srt -> arranger_ok arr -> wf_op_b p = true -> total_orders fl_pandas p e -> exact_group_keys fl_pandas p e ->
+  pexec_gen srt arr q p e = Some t ->
   exists t', sem_gen fl_pandas p e = Some t' /\ refines t t' /\ width_ok t.
 Proof.
-  intros So W TO EG H.
-  apply (pexec_refines srt So q true join_step_holds true (window_step_holds srt So) p e t W (covered_of_wf p W) TO EG H).
+  intros So Ao W TO EG H.
+  apply (pexec_refines srt So arr q true (join_step_holds arr Ao) true (window_step_holds srt So) p e t W (covered_of_wf p W) TO EG H).
 Qed.
 
 (* the same, spelled out: the result has the declared columns (as a set, each of them once in the reference table) and, read in
@@ -113,29 +113,29 @@ Proof.
   rewrite <- C. rewrite (map_ext _ _ (fun c => Rab c)). apply select_all_id; [rewrite C; exact N|exact Lb].
 Qed.
 
-Theorem pexec_refines_sem_cells srt q p e t :
-  sorter_ok srt -> wf_op_b p = true -> total_orders fl_pandas p e -> exact_group_keys fl_pandas p e ->
-  pexec_gen srt q p e = Some t ->
+Theorem pexec_refines_sem_cells srt arr q p e t :
+  sorter_ok srt -> arranger_ok arr -> wf_op_b p = true -> total_orders fl_pandas p e -> exact_group_keys fl_pandas p e ->
+  pexec_gen srt arr q p e = Some t ->
   exists t', sem_gen fl_pandas p e = Some t' /\ same_set (cols t) (cols t') /\ NoDup (cols t') /\
              Permutation (rows (sem_select_cols (cols t') t)) (rows t').
 Proof.
-  intros So W TO EG H. destruct (pexec_refines_sem srt q p e t So W TO EG H) as [t' [E [Rf _]]]. exists t'. split; [exact E|].
+  intros So Ao W TO EG H. destruct (pexec_refines_sem srt arr q p e t So Ao W TO EG H) as [t' [E [Rf _]]]. exists t'. split; [exact E|].
   pose proof (sem_rows_width _ _ _ _ E) as Wt'. pose proof (sem_cols _ _ _ _ E) as Ct'.
   assert (NoDup (cols t')) as N by (rewrite Ct'; apply (wf_nodup p W)).
   destruct (refines_cells t t' Rf N Wt') as [S P]. split; [exact S|]. split; [exact N|exact P].
 Qed.
 
 (* ------------------------------------------------------------------ no scratch column survives (no premise on the data) *)
-Theorem pexec_shape srt q p : sorter_ok srt -> forall e t,
-  wf_op_b p = true -> pexec_gen srt q p e = Some t -> same_set (cols t) (column_names p) /\ width_ok t.
+Theorem pexec_shape srt arr q p : sorter_ok srt -> arranger_ok arr -> forall e t,
+  wf_op_b p = true -> pexec_gen srt arr q p e = Some t -> same_set (cols t) (column_names p) /\ width_ok t.
 Proof.
-  intros So.
+  intros So Ao.
   induction p as [n cs|s IH ops wd w|s IH ops gb|s IH x|s IH cs|s IH cs|s IH m|s IH m dels|s IH cs rev lim|a IHa b IHb on_a on_b jt|a IHa b IHb idc an bn];
     intros e t W H; pose proof (wf_nodup _ W) as [ND NE]; cbn [pexec_gen] in H; cbn [column_names].
   - destruct (dict_get e n) as [df|]; cbn [obind] in H; [|discriminate]. rewrite (px_table_exact _ _ _ H).
     split; [apply same_set_refl|apply width_select_cols].
   - (* extend *)
-    destruct (pexec_gen srt q s e) as [u|] eqn:Eu; cbn [obind] in H; [|discriminate].
+    destruct (pexec_gen srt arr q s e) as [u|] eqn:Eu; cbn [obind] in H; [|discriminate].
     cbn [wf_op_b] in W. apply andb_true_iff in W. destruct W as [_ W]. apply andb_true_iff in W. destruct W as [W Ww].
     apply andb_true_iff in W. destruct W as [W Nops]. apply andb_true_iff in W. destruct W as [Ws Nk].
     destruct (IH e u Ws Eu) as [Su Wu].
@@ -151,7 +151,7 @@ Proof.
       * destruct (px_extend_plain_eqv ops u t En Nops' (nodup_names_sound _ Nk) Wu H) as [[Sx _] Wx].
         split; [eapply same_set_trans; [exact Sx|exact Se]|exact Wx].
   - (* project *)
-    destruct (pexec_gen srt q s e) as [u|] eqn:Eu; cbn [obind] in H; [|discriminate].
+    destruct (pexec_gen srt arr q s e) as [u|] eqn:Eu; cbn [obind] in H; [|discriminate].
     cbn [wf_op_b] in W. apply andb_true_iff in W. destruct W as [_ W]. apply andb_true_iff in W. destruct W as [W Wagg].
     apply andb_true_iff in W. destruct W as [Ws Wgb]. destruct (IH e u Ws Eu) as [Su Wu].
     destruct (px_project_refines q ops gb u t Wu) as [Rx Wx]; try assumption.
@@ -159,18 +159,18 @@ Proof.
     { intros ke Ike. apply (agg_ok_of_b (column_names s)); [exact Su|]. apply (proj1 (forallb_forall _ _) Wagg ke Ike). }
     { cbn [column_names] in NE. destruct ops; [right|left; discriminate]. intros E0. subst gb. apply NE. reflexivity. }
     split; [apply (refines_same_set _ _ Rx)|exact Wx].
-  - destruct (pexec_gen srt q s e) as [u|] eqn:Eu; cbn [obind] in H; [|discriminate].
+  - destruct (pexec_gen srt arr q s e) as [u|] eqn:Eu; cbn [obind] in H; [|discriminate].
     cbn [wf_op_b] in W. apply andb_true_iff in W. destruct W as [_ Ws]. destruct (IH e u Ws Eu) as [Su Wu].
     rewrite (px_select_rows_exact _ _ _ H). split; [exact Su|apply width_select_rows, Wu].
-  - destruct (pexec_gen srt q s e) as [u|] eqn:Eu; cbn [obind] in H; [|discriminate].
+  - destruct (pexec_gen srt arr q s e) as [u|] eqn:Eu; cbn [obind] in H; [|discriminate].
     rewrite (px_select_cols_exact _ _ _ H). split; [apply same_set_refl|apply width_select_cols].
-  - destruct (pexec_gen srt q s e) as [u|] eqn:Eu; cbn [obind] in H; [|discriminate].
+  - destruct (pexec_gen srt arr q s e) as [u|] eqn:Eu; cbn [obind] in H; [|discriminate].
     cbn [wf_op_b] in W. apply andb_true_iff in W. destruct W as [_ Ws]. destruct (IH e u Ws Eu) as [Su Wu].
     rewrite (px_drop_cols_exact _ _ _ H). split; [apply same_set_filter, Su|apply width_select_cols].
-  - destruct (pexec_gen srt q s e) as [u|] eqn:Eu; cbn [obind] in H; [|discriminate].
+  - destruct (pexec_gen srt arr q s e) as [u|] eqn:Eu; cbn [obind] in H; [|discriminate].
     cbn [wf_op_b] in W. apply andb_true_iff in W. destruct W as [_ Ws]. destruct (IH e u Ws Eu) as [Su Wu].
     rewrite (px_rename_exact _ _ _ H). split; [apply same_set_map, Su|apply width_rename, Wu].
-  - destruct (pexec_gen srt q s e) as [u|] eqn:Eu; cbn [obind] in H; [|discriminate].
+  - destruct (pexec_gen srt arr q s e) as [u|] eqn:Eu; cbn [obind] in H; [|discriminate].
     cbn [wf_op_b] in W. apply andb_true_iff in W. destruct W as [_ W]. apply andb_true_iff in W. destruct W as [Ws _]. destruct (IH e u Ws Eu) as [Su Wu].
     split.
     + destruct (px_map_cols_eqv _ _ _ _ H) as [Sx _]. eapply same_set_trans; [exact Sx|]. cbn [cols sem_drop_cols sem_select_cols sem_rename].
@@ -178,22 +178,22 @@ Proof.
     + unfold px_map_cols in H. destruct (Nat.ltb 0 (List.length dels)).
       * apply pd_select_inv in H. destruct H as [-> _]. apply width_select_cols.
       * inversion H; subst. rewrite pd_rename_sem. apply width_rename, Wu.
-  - destruct (pexec_gen srt q s e) as [u|] eqn:Eu; cbn [obind] in H; [|discriminate].
+  - destruct (pexec_gen srt arr q s e) as [u|] eqn:Eu; cbn [obind] in H; [|discriminate].
     cbn [wf_op_b] in W. apply andb_true_iff in W. destruct W as [_ Ws]. destruct (IH e u Ws Eu) as [Su Wu].
     split; [|apply (px_order_width srt cs rev lim u t So Wu H)].
     destruct (px_order_shape srt So _ _ _ _ _ H) as [S [_ [_ ->]]]. exact Su.
   - (* natural_join *)
-    destruct (pexec_gen srt q a e) as [l|] eqn:El; cbn [obind] in H; [|discriminate].
-    destruct (pexec_gen srt q b e) as [r|] eqn:Er; cbn [obind] in H; [|discriminate].
+    destruct (pexec_gen srt arr q a e) as [l|] eqn:El; cbn [obind] in H; [|discriminate].
+    destruct (pexec_gen srt arr q b e) as [r|] eqn:Er; cbn [obind] in H; [|discriminate].
     cbn [wf_op_b] in W. apply andb_true_iff in W. destruct W as [_ W]. apply andb_true_iff in W. destruct W as [W Wj].
     apply andb_true_iff in W. destruct W as [Wa Wb]. destruct (IHa e l Wa El) as [Sl Wl]. destruct (IHb e r Wb Er) as [Sr Wr].
-    destruct (join_step_holds eq_refl (OJoin a b on_a on_b jt) a b on_a on_b jt l r t eq_refl Wl Wr Sl Sr Wj H) as [Rx Wx].
+    destruct (join_step_holds arr Ao eq_refl (OJoin a b on_a on_b jt) a b on_a on_b jt l r t eq_refl Wl Wr Sl Sr Wj H) as [Rx Wx].
     split; [|exact Wx]. eapply same_set_trans; [apply (refines_same_set _ _ Rx)|]. unfold sem_join. cbn [cols].
     eapply same_set_trans; [apply same_set_union_form|]. eapply same_set_trans; [|apply same_set_sym, same_set_union_form].
     apply same_set_app; assumption.
   - (* concat_rows *)
-    destruct (pexec_gen srt q a e) as [l|] eqn:El; cbn [obind] in H; [|discriminate].
-    destruct (pexec_gen srt q b e) as [r|] eqn:Er; cbn [obind] in H; [|discriminate].
+    destruct (pexec_gen srt arr q a e) as [l|] eqn:El; cbn [obind] in H; [|discriminate].
+    destruct (pexec_gen srt arr q b e) as [r|] eqn:Er; cbn [obind] in H; [|discriminate].
     cbn [wf_op_b] in W. apply andb_true_iff in W. destruct W as [_ W]. apply andb_true_iff in W. destruct W as [W Wc].
     apply andb_true_iff in W. destruct W as [Wa Wb]. destruct (IHa e l Wa El) as [Sl Wl]. destruct (IHb e r Wb Er) as [Sr Wr].
     assert (same_set (column_names a) (column_names b)) as Sab by (apply set_eqb_same_set, Wc).
@@ -209,19 +209,19 @@ Qed.
 (* ------------------------------------------------------------------ the join result, cell by cell *)
 (* every row of the executor's join result is built from a pair (left row or none, right row or none) that the reference join
    produces, and every cell is COALESCE(left, right): the left value, or the right one where the left is null / absent *)
-Theorem join_coalesce declared on_a on_b jt l r x :
-  width_ok l -> width_ok r ->
+Theorem join_coalesce arr declared on_a on_b jt l r x :
+  arranger_ok arr -> width_ok l -> width_ok r ->
   (forall c, In c on_a -> In c (cols l)) -> (forall c, In c on_b -> In c (cols r)) -> List.length on_a = List.length on_b ->
   same_set declared (cols l ++ filter (fun c => negb (mem c (cols l))) (cols r)) ->
-  px_join declared on_a on_b jt l r = Some x ->
+  px_join_with arr declared on_a on_b jt l r = Some x ->
   forall row, In row (rows x) ->
     exists p, In p (sem_pairs (join_match false (cols l) (cols r) on_a on_b) (how_of jt) (rows l) (rows r)) /\
               (forall ra, fst p = Some ra -> In ra (rows l)) /\ (forall rb, snd p = Some rb -> In rb (rows r)) /\
               (forall ra rb, fst p = Some ra -> snd p = Some rb -> join_match false (cols l) (cols r) on_a on_b ra rb = true) /\
               forall c, In c (cols l) \/ In c (cols r) -> get (cols x) row c = sem_cell (cols l) (cols r) p c.
 Proof.
-  intros Wl Wr Ha Hb Hlen Sd H row Irow.
-  destruct (px_join_refines declared on_a on_b jt l r x Wl Wr Ha Hb Hlen Sd H) as [[v [[Sc F] [C P]]] _].
+  intros Ao Wl Wr Ha Hb Hlen Sd H row Irow.
+  destruct (px_join_with_refines arr declared on_a on_b jt l r x Ao Wl Wr Ha Hb Hlen Sd H) as [[v [[Sc F] [C P]]] _].
   rewrite sem_join_as_pairs in C, P. cbn [cols rows] in C, P.
   destruct (Forall2_In_l _ _ _ _ F Irow) as [row' [Irow' Rr]].
   apply (Permutation_in _ P) in Irow'. apply in_map_iff in Irow'. destruct Irow' as [p [Ep Ip]]. exists p. split; [exact Ip|].
